@@ -1123,3 +1123,59 @@ def import_sort_obligations(ctx, rep, rule, minimum=20):
     if n < minimum:
         raise AnalysisError('anchor vanished: only %d obligations about the sort' % n)
     return n
+
+
+# ------------------------------------------------------------------ sentinels told apart by identity need fresh objects
+def check_fresh_wrappers(ctx, rep, rule):
+    """The merge loops start from `nokey = Comparable(None)` and tell "no key seen yet" from a real None key by identity.
+    That works only while every Comparable(...) call creates a new object: a __new__ / a metaclass __call__ / an instance
+    cache that hands out a shared wrapper for equal values makes a real None key identical to the sentinel."""
+    from ..loader import AnalysisError
+    m = ctx.project.modules.get('petl.comparison')
+    ci = m.classes.get('Comparable') if m is not None else None
+    if ci is None:
+        raise AnalysisError('anchor vanished: petl.comparison:Comparable')
+    bad = []
+    for name, meth in ci.methods.items():
+        if name in ('__new__', '__init_subclass__', '__class_getitem__'):
+            bad.append((meth.node, 'defines %s' % name))
+    for kw in getattr(ci.node, 'keywords', []):
+        if kw.arg == 'metaclass':
+            bad.append((ci.node, 'has a metaclass (%s)' % norm(kw.value)))
+    for dec in ci.node.decorator_list:
+        bad.append((ci.node, 'is decorated (%s): the name may no longer be the class' % norm(dec)))
+    for x in m.tree.body:
+        # the name re-bound at module level to a factory / cache
+        if isinstance(x, ast.Assign) and any(isinstance(t, ast.Name) and t.id == 'Comparable' for t in x.targets):
+            bad.append((x, 'the name Comparable is re-bound to %s' % norm(x.value)[:50]))
+    for node, why in bad:
+        rep.violated(rule, ci, 'Comparable(...) creates a new object',
+                     'Comparable %s: two calls may return the same object, so the sentinel `nokey = Comparable(None)` of the '
+                     'merge loops is no longer distinguishable by identity from the wrapper of a real None key -- a pending '
+                     'None-key group is taken for "nothing pending"' % why, node)
+    if not bad:
+        rep.held(rule, ci, 'Comparable(...) creates a new object', 'no __new__, metaclass, decorator or re-binding', ci.node)
+
+
+def cacheview_flag_on_exhaustion(ctx):
+    """`cachecomplete = True` may be reached only when the loop over the inner table ended by exhaustion: not from a
+    `finally` (which also runs when the generator is closed or dropped half-way, or when the inner table fails), not from
+    an `except` handler, not from inside the loop.  Returns (fn, None) or (fn, text)."""
+    import ast as _ast
+    from ..loader import norm as _norm, own_nodes as _own
+    from ..absint import parent_map as _pm, enclosing as _enc
+    fn, room, complete = cacheview_predicates(ctx)
+    pm = _pm(fn.node)
+    for x in _own(fn.node):
+        if isinstance(x, _ast.Assign) and any(_norm(t).endswith('.cachecomplete') for t in x.targets) and \
+                isinstance(x.value, _ast.Constant) and x.value.value is True:
+            for p, c in _enc(pm, x, stop=fn.node):
+                if isinstance(p, _ast.Try) and any(c is b for b in p.finalbody):
+                    return fn, ('the memo is declared complete in a `finally` block: that also runs when an iterator is closed or '
+                                'dropped after a few rows (header(), head(), zip) and when the inner table fails, so a partial memo '
+                                'is marked complete and every later pass -- and every other live iterator -- is cut short')
+                if isinstance(p, _ast.ExceptHandler):
+                    return fn, 'the memo is declared complete in an exception handler'
+                if isinstance(p, (_ast.For, _ast.While)) and any(c is b for b in p.body):
+                    return fn, 'the memo is declared complete inside the loop over the inner table, before it is exhausted'
+    return fn, None
